@@ -128,3 +128,6 @@ func (l *VerifFrameSink) Frames() [][]byte {
 
 // VerifRunReceive runs a transport's own receive loop until it returns.
 func VerifRunReceive(tr transport) { tr.runReceive() }
+
+// VerifSendFrame hands one frame to a transport's own send path.
+func VerifSendFrame(tr transport, frame []byte) { tr.sendFrame(frame) }
